@@ -309,6 +309,7 @@ type GlobalVar struct {
 	Storage string // "const", "shared", "global", "in", "out", "uniform"
 	Init    Expr
 	CellOff int // offset in the per-invocation (global) or per-workgroup (shared) cell area
+	initVal *Value
 	Pos     Pos
 }
 
@@ -325,15 +326,15 @@ type Param struct {
 
 // Function is a user function (definition or prototype).
 type Function struct {
-	Pos       Pos
-	Name      string
-	RetX      *TypeExpr
-	Ret       *Type
-	Params    []*Param
-	Body      *BlockStmt // nil: prototype only
-	FrameSize int
-	callees   map[*Function]bool
-	def       *Function // for a prototype: its definition (once seen)
+	Pos        Pos
+	Name       string
+	RetX       *TypeExpr
+	Ret        *Type
+	Params     []*Param
+	Body       *BlockStmt // nil: prototype only
+	FrameSize  int
+	callees    map[*Function]bool
+	def        *Function // for a prototype: its definition (once seen)
 	hasBarrier bool
 }
 
